@@ -29,7 +29,8 @@ CHECKS = {
         text='The finite domain named in the property (3 names per side, all wildcards and name sets incl. an unknown '
              'name) is enumerated completely per side and pushed through the real builder; thorough enumerates the '
              'product of both sides; beyond the bound Hypothesis samples generated models with up to 6 ports. Accessor '
-             'types are read back from the generated header.',
+             'types are read back from the generated header. Two of three builds are performed by one long-lived '
+             'Builder on shared parsed contents (a failure is written out with its history).',
         note=TRUST_PY, design='C03'),
     'C04': dict(
         technique='model-based generation of claim/release/other/out-event histories (Hypothesis, sequences as data, delta-debugged) run against the compiled multi-client shell with a reference claim model as oracle',
@@ -57,9 +58,11 @@ CHECKS = {
              'must be the unique one on the scope chain; exploration.',
         note=TRUST_PY, design='C07'),
     'C08': dict(
-        technique='differential testing across child interpreters (PYTHONHASHSEED x set construction order x warm/fresh process) over Hypothesis-generated (model, configuration) pairs',
+        technique='differential testing across child interpreters (PYTHONHASHSEED x set construction order x warm/fresh process x shared Builder x user noise x working directory x -O/-OO/C locale/secondary thread) over Hypothesis-generated (model, configuration) pairs',
         text='Every generated pair is built under 8 (quick) / 32 (thorough) hash-seed x order variants in separate '
-             'processes; all must agree byte for byte (sha256) and every reported hash must be the md5 of the contents; '
+             'processes, plus one variant each for a reused Builder, a build after unrelated use of the public '
+             'helpers, another working directory with a symlinked file name, interpreters started with -O / -OO / an '
+             'ASCII locale and a build from a secondary thread; all must agree byte for byte (sha256) and every reported hash must be the md5 of the contents; '
              'exploration.',
         note=TRUST_PY, design='C08'),
     'C09': dict(
@@ -76,7 +79,7 @@ CHECKS = {
              'nothing is omitted; late client registration must be refused.',
         note=TRUST_CXX, design='C10'),
     'C11': dict(
-        technique='generated thread schedules: harness-owned deterministic scheduler (bounded-exhaustive stateless DFS over deviations + Hypothesis-sampled programs/schedules) with a trace oracle, plus free-running perturbation fuzzing under ThreadSanitizer; MutexWrapped op-list fuzzing under TSan',
+        technique='generated thread schedules: harness-owned deterministic scheduler (bounded-exhaustive stateless DFS over <= 3 deviations + Hypothesis-sampled programs x dense / sparse / seeded pseudo-random-walk schedules) with a trace oracle, plus free-running perturbation fuzzing under ThreadSanitizer; MutexWrapped op-list fuzzing under TSan',
         text='Interleavings of 2-3 client threads, the dispatcher and an out-event raising environment are the generated '
              'input: all schedules up to a deviation bound are enumerated for the smallest program, larger programs are '
              'sampled; the claim-holder oracle is evaluated on the totally ordered trace, deadlocks are structural; '
@@ -99,8 +102,8 @@ CHECKS = {
     'C14': dict(
         technique='bounded-exhaustive enumeration (3-identifier alphabet, depth 3) plus ' + PBT + 'a set-comprehension specification of lookup / resolution order / suffix search and an own identifier scanner',
         text='The finite sub-domain named in the property (alphabet of 3, depth 3, every name x scope x single/pair/full '
-             'declaration set) is enumerated completely; beyond it Hypothesis samples parser-built contents and arbitrary '
-             'identifier candidates; exploration with an exhaustive core.',
+             'declaration set) is enumerated completely; beyond it Hypothesis samples parser-built contents, contents that '
+             'grow and shrink between look-ups, and arbitrary identifier candidates; exploration with an exhaustive core.',
         note=TRUST_PY, design='C14'),
     'C15': dict(
         technique=PBT + 'a crash/exception-class oracle over structurally mutated well-formed documents (and an injected-invalid-out-event clause); optional atheris campaign in thorough',
@@ -122,7 +125,8 @@ CHECKS = {
     'C18': dict(
         technique=PBT + 'a direct per-line prefix specification of the indenter; list form vs string form differential',
         text='Generated-input search over line lists x indenter configurations x repetition, compared line by line with '
-             'a specification of the prefix; exploration.',
+             'a specification of the prefix; histories with several live indenters (constructor, prefab creators, '
+             'overridden module default, in-place reconfiguration); exploration.',
         note=TRUST_PY, design='C18'),
     'C19': dict(
         technique=PBT + 'the C17 reference flattener ("one // line per physical line") and a metamorphic relation over builds (vary only copyright/creator_info)',
